@@ -79,12 +79,12 @@ reg(
     "against an executable device twin below the framing layer (serial CRC frames and USB-HID reports); every recorded history (frames seen / emitted, "
     "injected fault, API result) decided by TLC against the R-specs MbootTrace.tla / SdpTrace.tla, which also constrain the twin itself Command layer MbootCmds.tla / SdpTrace: the packets that reach the device twin (tag, flags, parameter words; SDP address, format, count, value) are compared with the definition of each of 34 driven operations, arguments from boundary value classes; clause StrictFaults (NAK / abort / truncated / missing frame end the call in failure); the device's property report is checked for history independence. SDPS (SdpsTrace.tla): histories of one or two stream downloads in one process against a twin of the ROM in stream mode (command block wrapper, report ids and sizes known independently; ROM parameters read from the device files by a plain YAML reader), a lost report at every position class. Tool layer MbootCli.tla: blhost command lines through the real option parser.",
     "Model checking of the protocol design with 0..3 data packets and <= 1 (thorough: 2) faults, plus conformance of ~3000 (thorough: more) real executions: "
-    "17 mboot operations x length classes x packet sizes x both transports x cached / uncached packet size, random multi-call histories on one object, all "
-    "TLC fault classes x byte/bit positions, benign not-ready bytes, device-reported errors; SDP read / write / write-file / dcd / csf / status / jump / skip-dcd over "
+    "35 mboot operations (incl. generate_key_blob: two exchanges in one call) x length classes x packet sizes x both transports x cached / uncached packet size, random multi-call histories on one object, all "
+    "TLC fault classes x byte/bit positions, benign not-ready bytes, device-reported errors in the first and in the final response; SDP read / write / write-file / dcd / csf / status / jump / skip-dcd over "
     "serial (data arriving in bursts) and HID with truncation at every position class and failure statuses.",
     "Trusted: TLC, the twins and result classification in harness/c10.py and c10_sdp.py (the twins are themselves checked against the spec's device "
     "automaton). HID payload corruption is not a listed fault (no integrity check exists); a 4-byte SDP status word is assumed to arrive in one piece; "
-    "generate_key_blob / trust-provisioning / EdgeLock commands are not driven; SDPS has no device-to-host traffic, its only link fault is a report the link does not take.",
+    "trust-provisioning / EdgeLock / WPC / DSC-HSM commands are not driven; SDPS has no device-to-host traffic, its only link fault is a report the link does not take.",
     "DESIGN.md section 4 C10",
 )
 
